@@ -793,14 +793,17 @@ func symdiff(a, b []string) []string {
 }
 
 // effectiveModes gives the mode each module logs in for a --log-http value (comma separated parts, in the
-// order given): the last entry naming the module, else the last unnamed entry, else the default `errors`.
+// order given): the FIRST entry naming the module (httplogUpdate stops at the first match), else the last unnamed
+// entry, else the default `errors`.  (coq/g19 Model.run_sets, theorem T19_named_log_mode_holds.)
 func effectiveModes(logHTTP string) map[string]string {
 	eff := map[string]string{}
 	def := "errors"
 	named := map[string]string{}
 	for _, part := range strings.Split(logHTTP, ",") {
 		if name, mode, ok := strings.Cut(part, ":"); ok {
-			named[name] = mode
+			if _, seen := named[name]; !seen {
+				named[name] = mode
+			}
 		} else if part != "" {
 			def = part
 		}
